@@ -324,7 +324,12 @@ def run_phase(tape, r, sandbox, phase, params, exs, url_table, timeout=60.0, io_
                         r.log('phase %d ftp %s %s ok' % (phase, kind, path))
                     except (NetworkError, ProtocolError, ServerError) as e:
                         r.log('phase %d ftp %s %s -> %s' % (phase, kind, path, type(e).__name__))
-                    except OSError as e:
+                    except (SimDeadlock, SimBudgetExceeded):
+                        raise
+                    except Exception as e:
+                        # after the injected I/O error the session may end with that OSError or with a follow-up error of the
+                        # recorder session (its scratch file could not be made): either way this fetch failed; what is on disk
+                        # afterwards is judged
                         if io_fault is None:
                             raise
                         r.log('phase %d ftp %s %s -> injected %s' % (phase, kind, path, type(e).__name__))
